@@ -153,8 +153,12 @@ class Typemap(object):
                 # Blank delimited strings to list
                 if isinstance(value,list):
                     setattr(self, key, value)
-                else:
+                elif isinstance(value, str):
                     setattr(self, key, value.split())
+                else:
+                    raise RuntimeError(
+                        "Typemap {}: {} must be a string or a list, "
+                        "found '{}'".format(self.name, key, value))
             elif key in self.defaults:
                 setattr(self, key, value)
             else:
